@@ -12,7 +12,8 @@ MUTS = {
  "M15_same_version_other_prefix_check": ("hed/schema/hed_schema_io.py", "        if version in out_versions[schema_namespace]:", "        if version in out_versions[schema_namespace] and not schema_namespace:"),
  "M16_find_rem_offbyone": ("hed/schema/hed_schema_group.py", "        return specific_schema._find_tag_entry(tag, schema_namespace)", "        return specific_schema._find_tag_entry(tag, schema_namespace[:-1]) if len(schema_namespace) > 3 else specific_schema._find_tag_entry(tag, schema_namespace)"),
 }
-PATCHES = {"S1_seeded": "/root/work/seedout/C13/1/patch.diff", "S2_seeded_find_tag_entry_guard": "/root/work/seedout/C13/2/patch.diff",
+PATCHES = {"S5_seeded_83props_feature_only": "/root/work/seedout/C13/5/patch.diff", "S6_seeded_silent_drop_same_library": "/root/work/seedout/C13/6/patch.diff",
+           "S1_seeded": "/root/work/seedout/C13/1/patch.diff", "S2_seeded_find_tag_entry_guard": "/root/work/seedout/C13/2/patch.diff",
            "S3_seeded_no_reidentification": "/root/work/seedout/C13/3/patch.diff", "S4_seeded_cached_prefixed_names": "/root/work/seedout/C13/4/patch.diff",
            "S8_seeded_get_tag_entry_guard_all_sections": "/root/work/seedout/C13/8/patch.diff",
            "S9_seeded": "/root/work/seedout/C13/9/patch.diff", "S10_seeded_loaders_reset_prefix": "/root/work/seedout/C13/10/patch.diff",
